@@ -136,28 +136,51 @@ func (g *cfgGen) genRole(out *[]clause) {
 }
 
 func (g *cfgGen) genCast(out *[]clause) {
+	hdr := len(*out) // where the `cast` header goes
 	g.add(out, "", "cast", "cast", true)
 	n := 1 + g.rng.Intn(3)
-	for i := 0; i < n; i++ {
+	for i := 0; i < n || len(g.actors) == 0; i++ {
 		r := g.roles[g.rng.Intn(len(g.roles))]
 		name := g.id("actor")
 		env := ""
 		if g.rng.Intn(3) == 0 {
 			env = " with " + g.pick([]string{"patient=alice", "A=1 B=2", "mode='x y'"})
 		}
-		if g.rng.Intn(4) == 0 {
-			m := 1 + g.rng.Intn(3)
-			plural := ""
-			if g.rng.Intn(2) == 0 {
-				plural = "s"
-			}
-			g.add(out, "cast", "cast-multi", fmt.Sprintf("%s* play %d %s%s%s", name, m, r.name, plural, env), false)
-			for k := 1; k <= m; k++ {
-				g.actors = append(g.actors, actorInfo{fmt.Sprintf("%s%d", name, k), r})
-			}
-		} else {
+		if g.rng.Intn(3) != 0 {
 			g.add(out, "cast", "cast-single", name+" plays "+r.name+env, false)
 			g.actors = append(g.actors, actorInfo{name, r})
+			continue
+		}
+		// a multiplicity: mostly small and positive, sometimes zero or negative
+		// (accepted: no actor is defined), written out or through a parameter
+		m := 1 + g.rng.Intn(3)
+		kind := "cast-multi"
+		switch g.rng.Intn(8) {
+		case 0:
+			m, kind = 0, "cast-multi-zero"
+		case 1:
+			m, kind = -1-g.rng.Intn(3), "cast-multi-negative"
+		case 2:
+			m, kind = 4+g.rng.Intn(9), "cast-multi-larger"
+		}
+		plural := ""
+		if g.rng.Intn(2) == 0 {
+			plural = "s"
+		}
+		ms := fmt.Sprintf("%d", m)
+		if g.rng.Intn(3) == 0 {
+			// `parameter` is a top-level clause: it goes before the `cast` header
+			pn := g.id("n")
+			pc := clause{text: "parameter " + pn + " defaults to " + ms, kind: "parameter-multiplicity"}
+			rest := append([]clause{pc}, (*out)[hdr:]...)
+			*out = append((*out)[:hdr], rest...)
+			hdr++
+			ms = "~" + pn + "~"
+			kind += "-param"
+		}
+		g.add(out, "cast", kind, fmt.Sprintf("%s* play %s %s%s%s", name, ms, r.name, plural, env), false)
+		for k := 1; k <= m; k++ {
+			g.actors = append(g.actors, actorInfo{fmt.Sprintf("%s%d", name, k), r})
 		}
 	}
 	g.add(out, "cast", "end", "end", true)
